@@ -9,7 +9,8 @@ import circuitgraph as cg
 RULE = ("every digraph with 1..2 inputs and 2 gate nodes over {and,or,nand,not,xor} that contains a cycle and no "
         "self-loop, sampled ones with 3 gates, and seeded random lint-clean cyclic circuits (nested / overlapping "
         "cycles, several SCCs, constants, outputs that are inputs); every input valuation and every stable state "
-        "(brute-force fixed points) is checked; non-trivial = the circuit has at least one stable state")
+        "(brute-force fixed points) is checked; non-trivial = the circuit has at least one stable state"
+        "; plus: names derived from the library's own naming templates, shuffled node insertion order")
 BOUND = "circuits <= 11 nodes, <= 3 inputs; all valuations and fixed points; 4/16 hash seeds"
 GT = ["and", "or", "nand", "not", "xor"]
 
